@@ -380,6 +380,8 @@ def make_history(rng, n_steps, items, rewrites=2):
         elif r < 0.62:
             steps.append({"op": "observe", "q": q, "v": v, "what": rng.choice([["result"], ["result", "divisions"], ["divisions", "result"], ["name", "divisions", "len"], ["len", "result"], ["meta", "result"]]),
                           "via": rng.choice(["fresh", "fresh", "handle"])})
+            if sp.flags(q).get("parts"):
+                steps[-1]["what"] = ["parts", "divisions"]
         elif r < 0.72 and sp.flags(q).get("fail_tag"):
             steps.append({"op": "fail", "q": q, "v": v})
         elif r < 0.80:
@@ -403,6 +405,10 @@ def directed_history(rng, quick=True):
 
     sorts = [(q, v) for q in sp.POOL if "sort" in sp.flags(q).get("tags", []) and "flaky" not in sp.flags(q).get("tags", [])
              for v in [None] + list(range(len(sp.POOL[q][2])))]
+    # (0) both directions of a sort of an already sorted column share (frame, column, npartitions): the cached
+    #     `presorted` flag must not leak from one direction to the other (observed on the partitioned plan)
+    observe("presorted_asc", None, what=["parts", "divisions"])
+    observe("presorted_desc", None, what=["parts", "divisions", "result"])
     # (a) plan, overflow divisions_lru with > 10 other sorts, then use the kept plans (fused and unfused)
     targets = [("set_index", None), ("sort", None), ("set_index_then", None), ("sort_head", None)]
     for q, v in targets:
@@ -454,7 +460,7 @@ def directed_history(rng, quick=True):
 
 
 def _tag_groups(q):
-    return [t for t in sp.flags(q).get("tags", []) if t in ("sort", "parquet", "pq_none", "memusage", "flaky", "disk")]
+    return [t for t in sp.flags(q).get("tags", []) if t in ("sort", "parquet", "pq_none", "pqf", "presorted", "memusage", "flaky", "disk")]
 
 
 def _okey(qv, version):
@@ -721,7 +727,7 @@ def support(ctx, broken):
                 if key in seen_sigs:
                     continue
                 seen_sigs.add(key)
-                small = _shrink(steps, m, pq_root, budget=(2 if len(sup.failures) == 0 else 0) if ctx.quick else 25)
+                small = _shrink(steps, m, pq_root, budget=(2 if len(sup.failures) < 3 else 0) if ctx.quick else 25)
                 sup.failures.append(Failure(sig=sig, case={"steps": small, "expect": {"q": m["q"], "field": m["field"]}},
                                             detail=f"query {m['q']} (variation {m['v']}) observation {m['field']}: in session {m['session']} vs fresh interpreter {m['fresh']}; "
                                                    f"history shrunk to {len(small)} steps"))
